@@ -283,6 +283,42 @@ def shipped_witness(ctx, pend_vfile, v):
     return None
 
 
+
+def conflict_family():
+    """grammars whose only FIRST/FIRST conflict sits at a chosen place: in the first or a later state of a rule, in the start rule or a
+    sub-rule, between two terminals, a terminal and a nonterminal, two nonterminals (directly or through a chain of rules), after an
+    optional / repeated part - each with an LL(1) twin that differs in one token and must be accepted"""
+    out = []
+    heads = ['', "'x' ", "'x' 'y' ", "NUMBER ", "'x' NUMBER* "]
+    for tok, other in [('NAME', 'STRING'), ("'k'", "'j'")]:
+        for head in heads:
+            for twin in (False, True):
+                t2 = other if twin else tok
+                fam = [
+                    # two terminals
+                    "s: %s(%s 'p' | %s 'q')\n" % (head, tok, t2),
+                    # terminal against nonterminal
+                    "s: %s(a | %s 'q')\na: %s 'p'\n" % (head, t2, tok),
+                    "s: %s(%s 'q' | a)\na: %s 'p'\n" % (head, t2, tok),
+                    # two nonterminals
+                    "s: %s(a | b)\na: %s 'p'\nb: %s 'q'\n" % (head, tok, t2),
+                    # two nonterminals, one through a chain of rules
+                    "s: %s(a | b)\na: c 'p'\nc: d\nd: %s\nb: %s 'q'\n" % (head, tok, t2),
+                    # optional part followed by something that starts alike
+                    "s: %s[a] b\na: %s 'p'\nb: %s 'q'\n" % (head, tok, t2),
+                    "s: %sa* b\na: %s 'p'\nb: %s 'q'\n" % (head, tok, t2),
+                    "s: %s[%s 'p'] b\nb: %s 'q'\n" % (head, tok, t2),
+                    # the conflict in a sub-rule, not in the start rule
+                    "s: 'z' m\nm: %s(a | b)\na: %s 'p'\nb: %s 'q'\n" % (head, tok, t2),
+                    # three alternatives, conflict between the first and the last
+                    "s: %s(a | 'w' | b)\na: %s 'p'\nb: %s 'q'\n" % (head, tok, t2),
+                    # after a repetition of a group
+                    "s: %s('c' 'd')* (a | b)\na: %s\nb: %s 'q'\n" % (head, tok, t2),
+                ]
+                out.extend(fam)
+    return out
+
+
 def run(ctx, b, drv):
     pend = base.Pending(ctx)
     base.obligations(ctx, b, pend, ['Deriv.v', 'DfaCheck.v', 'Properties/C08.v'])
@@ -319,7 +355,15 @@ def run(ctx, b, drv):
             continue
         if sig:
             ctx.violation(sig, dict(kind='input', stream='pgen', index=i, grammar=text, observed=sig))
+    for i, text in enumerate(conflict_family()):
+        ctx.count('pgen-family')
+        try:
+            sig = check_grammar_text(text, drv, ctx, 'pgen-family', i)
+        except SyntaxError:
+            continue
+        if sig:
+            ctx.violation(sig, dict(kind='input', stream='pgen-family', index=i, grammar=text, observed=sig))
     pend.flush()
-    ctx.cov['rule'] = ('all rules/states of the shipped grammars exhaustively (obligations); random EBNF grammars with 1-4 rules, nesting <= 3; '
+    ctx.cov['rule'] = ('all rules/states of the shipped grammars exhaustively (obligations); a family of grammars with one FIRST/FIRST conflict at a chosen state / rule / pair of arcs and their LL(1) twins; random EBNF grammars with 1-4 rules, nesting <= 3; '
                        'non-trivial = grammar accepted and every automaton certified by the extracted verified checker, or rejected as non-LL(1) with the reference agreeing')
     ctx.cov['exhaustive_shipped'] = True
